@@ -101,7 +101,20 @@ def extract_fn(repo, fn, cache, dropped):
     if fn.head_expect is not None and not re.search(fn.head_expect, _norm_ws(head)):
         raise X.ExtractionBreak('%s: head %r does not match %r' % (fn.name, _norm_ws(head), fn.head_expect))
     log = []
-    body2 = X.apply_rules(body, fn.rules, log, where=fn.name)
+    rules = list(fn.rules)
+    prologue = ''
+    for name, ctype in (getattr(fn, 'ref_params', None) or {}).items():
+        # a C++ reference parameter is a pointer in the C head.  Whether the ORIGINAL head still declares it as a reference decides the
+        # translation: by reference -> every use is (*name); by value -> the function works on a local copy and the caller's object is untouched
+        if re.search(r'&\s*%s\b' % re.escape(name), head):
+            rules.insert(0, (r'\b%s\b' % re.escape(name), '(*%s)' % name, None))
+        else:
+            prologue += ' %s %s__byval = *%s;' % (ctype, name, name)
+            rules.insert(0, (r'\b%s\b' % re.escape(name), '%s__byval' % name, None))
+    body2 = X.apply_rules(body, rules, log, where=fn.name)
+    if prologue:
+        k = body2.index('{')
+        body2 = body2[:k + 1] + ' /* parameter(s) passed BY VALUE in the current source */' + prologue + body2[k + 1:]
     body2, nl = X.insert_loop_contracts(body2, fn.loops, fn.nloops, where=fn.name)
     if fn.reach:
         body2 = _insert_reach(body2, fn.name)
